@@ -237,7 +237,14 @@ def types_():
 
 
 STRINGS = [["DString", 0, MAXSIZE, None], ["DString", 2, 4, None], ["DString", 0, 5, None], ["DString", 0, 3, None],
-           ["DString", 2, MAXSIZE, None], ["DString", 0, MAXSIZE, 0], ["DString", 1, 3, 1], ["DString", 0, MAXSIZE, 2]]
+           ["DString", 2, MAXSIZE, None], ["DString", 0, MAXSIZE, 0], ["DString", 1, 3, 1], ["DString", 0, MAXSIZE, 2],
+           # regex x {maxlen only, minlen only, both, none}: String._init picks a specialised validator per combination
+           ["DString", 0, 4, 1], ["DString", 3, MAXSIZE, 1], ["DString", 2, 4, 1], ["DString", 0, MAXSIZE, 1],
+           ["DString", 0, 2, 0], ["DString", 2, MAXSIZE, 3]]
+# strings matching / not matching the regexes (0 ^a, 1 ^[a-z]+$, 2 \d, 3 ^(ab)*$) at every interesting length
+STRING_VALUES = [S(t) for t in ("", "a", "ab", "abc", "abcd", "abcde", "abcdef", "abab", "ababab", "a1", "1a", "12", "b",
+                                "ba", "bcdef", "abcdefgh")] + [["PStrSub", W_] for W_ in ([97, 98, 99], [97, 98, 99, 100, 101, 102])] \
+    + [["PInt", 12], ["PFloat", F(0.5)], ["PBool", True], ["PNone"], ["PBytes", [97, 98]], ["PInt", 10 ** 400]]
 
 
 def W(text):
